@@ -56,7 +56,7 @@ BOUND = {
 }
 REQUIRED_CLASSES = [
     'out_float64', 'out_float32', 'int_operand_ok', 'int32_ok', 'int32_dtype_error', 'nan_expected', 'finite_inelastic',
-    'out_of_domain_single', 'binned_ok', 'unit_mismatch_refused', 'path_orthogonal', 'path_generic', 'fallback_int_point',
+    'out_of_domain_single', 'binned_ok', 'broadcast_ok', 'unit_mismatch_refused', 'path_orthogonal', 'path_generic', 'fallback_int_point',
     'same_point_int', 'geom_ok', 'propagate_ok',
 ]
 
@@ -532,21 +532,30 @@ def _run_total_beam_length(case, rec):
 BASE_GRAVITY_UNITS = {'incident_beam': 'm', 'scattered_beam': 'm', 'wavelength': 'angstrom', 'gravity': 'm/s^2'}
 
 
-def _gravity_call(kernel, variant, units, wl_value, wl_dtype, binned=False):
+def _gravity_call(kernel, variant, units, wl_value, wl_dtype, binned=False, bcast=False, sca_scale=1.0):
     inc, inc_c = vector('incident_orth' if variant == 'orth' else 'incident_tilt', units['incident_beam'])
     sca, sca_c = vector('scattered_beam', units['scattered_beam'])
     g, g_c = vector('gravity', units['gravity'], 'accel')
+    sca = sca * sca_scale  # power of two: exact
+    sca_si = [[c * hp.F(sca_scale) for c in si_vec(sca_c, units['scattered_beam'])]]
     if binned:
         ev = np.asarray([wl_value, wl_value * 1.5, wl_value * 2.5], dtype=wl_dtype)
         table = sc.DataArray(sc.ones(dims=['event'], shape=[3]), coords={'x': sc.array(dims=['event'], values=ev, unit=units['wavelength'], dtype=wl_dtype)})
         wl = sc.bins(begin=sc.array(dims=['pixel'], values=[0, 2], unit=None), dim='event', data=table).bins.coords['x']
         wl_recv = ev.astype('float64')
+    elif bcast:
+        # wavelength on its own dim, scattered beam per pixel: the result broadcasts over both
+        ev = np.asarray([wl_value, wl_value * 1.5, wl_value * 2.5], dtype=wl_dtype)
+        wl = sc.array(dims=['wavelength'], values=ev, unit=units['wavelength'], dtype=wl_dtype)
+        wl_recv = ev.astype('float64')
+        sca = sc.concat([sca, sca * 2.0], 'pixel')
+        sca_si = [sca_si[0], [c * 2 for c in sca_si[0]]]
     else:
         wl = scalar(wl_value, units['wavelength'], wl_dtype)
         wl_recv = np.asarray([received(wl_value, wl_dtype)])
     res = getattr(B, kernel)(incident_beam=inc, scattered_beam=sca, wavelength=wl, gravity=g)
     si = {
-        'incident_beam': si_vec(inc_c, units['incident_beam']), 'scattered_beam': si_vec(sca_c, units['scattered_beam']),
+        'incident_beam': si_vec(inc_c, units['incident_beam']), 'scattered_beam': sca_si[0], 'scattered_beams': sca_si,
         'gravity': si_vec(g_c, units['gravity'], 'accel'), 'wavelength': [kin.to_si('length', float(x), units['wavelength']) for x in wl_recv],
     }
     return res, si
@@ -566,16 +575,17 @@ def _flat_values(var):
 def _run_gravity(case, rec):
     kernel, variant, units, tier = case['kernel'], case['variant'], case['units'], case['tier']
     site = f'conversion.beamline.{kernel}'
-    configs = [(dt, False) for dt in DTYPES] + [('float64', True), ('float32', True)]
+    configs = [(dt, 'scalar') for dt in DTYPES] + [('float64', 'binned'), ('float32', 'binned')] + [(dt, 'bcast') for dt in ('float64', 'float32', 'int64')]
     base_cache = {}
-    for dt, binned in configs:
+    for dt, layout in configs:
+        binned, bcast = layout == 'binned', layout == 'bcast'
         value, how = arg_value(kernel, 'wavelength', 'length', units['wavelength'], dt)
-        sub = {'units': units, 'wavelength_dtype': dt, 'variant': variant, 'binned': binned}
-        label = f'{kernel} ({variant}) units {units} wavelength dtype {dt}{" binned" if binned else ""}'
+        sub = {'units': units, 'wavelength_dtype': dt, 'variant': variant, 'binned': binned, 'layout': layout}
+        label = f'{kernel} ({variant}) units {units} wavelength dtype {dt} layout {layout}'
         rec.states += 1
         rec.transitions += 1
         try:
-            res, si = _gravity_call(kernel, variant, units, value, dt, binned)
+            res, si = _gravity_call(kernel, variant, units, value, dt, binned, bcast)
         except sc.DTypeError as e:
             if dt == 'int32':
                 rec.cls('int32_dtype_error')
@@ -590,24 +600,24 @@ def _run_gravity(case, rec):
         prec = 'single' if dt == 'float32' else 'double'
         tol = TOL[prec]
         outs = _gravity_outputs(kernel, res)
-        # expected angles per wavelength element
-        if variant == 'orth':
-            want = []
-            for lam in si['wavelength']:
-                tt, phi, gamma = kin.gravity_angles_orthogonal(si['incident_beam'], si['scattered_beam'], lam, si['gravity'])
-                want.append({'two_theta': tt, 'phi': phi, 'gamma': gamma})
-            rec.cls('path_orthogonal')
-        else:
-            # differential: same physical inputs, base units, float64 (values the kernel received, re-expressed)
-            lam_base = [float(kin.from_si('length', lam, 'angstrom')) for lam in si['wavelength']]
-            want = []
-            for lb in lam_base:
-                if lb not in base_cache:
-                    rb, _ = _gravity_call(kernel, variant, BASE_GRAVITY_UNITS, lb, 'float64')
-                    rec.transitions += 1
-                    base_cache[lb] = {k: hp.F(float(v.value)) for k, v in _gravity_outputs(kernel, rb).items()}
-                want.append(base_cache[lb])
-            rec.cls('path_generic')
+        # expected angles per (pixel, wavelength) element, pixel-major
+        want = []
+        for ipix, beam in enumerate(si['scattered_beams']):
+            if variant == 'orth':
+                for lam in si['wavelength']:
+                    tt, phi, gamma = kin.gravity_angles_orthogonal(si['incident_beam'], beam, lam, si['gravity'])
+                    want.append({'two_theta': tt, 'phi': phi, 'gamma': gamma})
+            else:
+                # differential: same physical inputs, base units, float64 (values the kernel received, re-expressed)
+                for lam in si['wavelength']:
+                    lb = float(kin.from_si('length', lam, 'angstrom'))
+                    key = (lb, ipix)
+                    if key not in base_cache:
+                        rb, _ = _gravity_call(kernel, variant, BASE_GRAVITY_UNITS, lb, 'float64', sca_scale=2.0**ipix)
+                        rec.transitions += 1
+                        base_cache[key] = {k: hp.F(float(v.value)) for k, v in _gravity_outputs(kernel, rb).items()}
+                    want.append(base_cache[key])
+        rec.cls('path_orthogonal' if variant == 'orth' else 'path_generic')
         ok = True
         for name, var in outs.items():
             if (var.bins is not None) != binned:
@@ -622,8 +632,18 @@ def _run_gravity(case, rec):
             if str(content.dtype) != want_dt:
                 rec.viol(site, 'wrong_dtype', f'{label}: {name} has dtype {content.dtype}, contract {want_dt} (wavelength dtype class)', got_dtype=str(content.dtype), **sub)
                 ok = False
-            got = np.atleast_1d(content.values).astype('float64')
+            if bcast:
+                if set(content.dims) != {'pixel', 'wavelength'}:
+                    rec.viol(site, 'wrong_dims', f'{label}: {name} has dims {content.dims}, expected pixel x wavelength', **sub)
+                    ok = False
+                    continue
+                content = content.transpose(['pixel', 'wavelength']).copy()
+            got = np.atleast_1d(content.values).astype('float64').ravel()
             rec.observe(got.tobytes().hex())
+            if len(got) != len(want):
+                rec.viol(site, 'wrong_shape', f'{label}: {name} has {len(got)} elements, expected {len(want)}', **sub)
+                ok = False
+                continue
             for j, w in enumerate(want):
                 rec.validated += 1
                 if not abs(hp.F(float(got[j])) - w[name]) <= tol:
@@ -634,6 +654,8 @@ def _run_gravity(case, rec):
             rec.cls('out_' + want_dt)
             if binned:
                 rec.cls('binned_ok')
+            if bcast:
+                rec.cls('broadcast_ok')
             if dt.startswith('int'):
                 rec.cls('int_operand_ok')
                 rec.cls('int32_ok' if dt == 'int32' else 'int64_ok')
